@@ -363,6 +363,11 @@ def oracle_lib(case, obs, ids):
     for p in ('/victim.txt', '/outside/keep.txt'):
         if p not in dpaths and before.get(p) != after.get(p):
             bad.append(('C02', 'file outside every root changed: %s' % p))
+    for p in set(before) | set(after):
+        # (at library level the desired state is an input and may name a path outside every root; the render
+        #  theorems of C03 exclude that for real configurations, so desired paths are not judged here)
+        if before.get(p) != after.get(p) and p not in dpaths and not any(p.startswith(r['root'] + '/') for r in roots):
+            bad.append(('C03', 'a file outside every target root of this run was created, modified or deleted: %s' % p))
     # every announced change realised (distinct paths)
     paths = [relf(c['path']) for c in plan]
     if len(set(paths)) == len(paths):
